@@ -13,6 +13,7 @@ from mc.ref import c10_ensembles as en
 from mc.ref import sdp_cert as sc
 
 EPS = sc.EPS_IPM
+CERT = 1e-3  # certificate reconstructed from an interior-point point is only sqrt(gap)-accurate: judged in the 1e-3 class
 
 RULE = ("case = (dimension, subset of the ket catalogue or of the density catalogue, prior, input form[, unitary / "
         "relabelling]); every subset of size 2-3 (quick) / 2-5 (thorough; 2-3 for d=4) of Kets(d), d in {2,3}(+4), is "
@@ -26,7 +27,10 @@ ASSUMPTIONS = [
     "weak duality of the min-error discrimination SDP and of the operator-form unambiguous SDP (proved in mc/ref/sdp_cert.py docstrings)",
     "picos exposes only the cvxopt solver for SDPs in this image, so 'every supported solver' = cvxopt",
     "ensembles bounded: 2-3 (quick) / 2-5 (thorough) states, d in {2,3} (quick) / {2,3,4} (thorough), catalogue kets and densities + 2 seed-derived generic elements each",
-    "values compared with tolerance class ipm = 1e-4; booleans judged only at margin >= 1e-3 from the boundary",
+    "values compared with tolerance class ipm = 1e-4; dual certificates rebuilt from interior-point points (sqrt(gap)-accurate) with 1e-3; "
+    "booleans judged only at margin >= 1e-3 from the boundary",
+    "primal forms are called with cvxopt_kktsolver='ldl' (the remedy named in state_exclusion's docstring and used by toqito's own tests) and an "
+    "iteration cap, because CVXOPT's default KKT solver raises or stalls for minutes on the redundant equality rows; dual forms with defaults",
 ]
 
 
@@ -97,7 +101,7 @@ def check_operators(fn, tag, ms_raw, rhos, w, val, sense, problems):
     if r["attain"] > EPS:
         problems.append((f"{fn}:povm_attains:{tag}", f"returned operators give sum_i p_i Tr(rho_i M_i) = {r['attained']:.8f}, reported value {float(val):.8f}",
                          r["attained"], float(val)))
-    if r["yherm"] > EPS or r["yfeas"] > EPS:
+    if r["yherm"] > CERT or r["yfeas"] > CERT:
         rel = ">=" if sense == "max" else "<="
         problems.append((f"{fn}:dual_certificate:{tag}", f"Y = sum_i p_i rho_i M_i is not a dual certificate (|Y-Y^dagger| {r['yherm']:.2e}, "
                          f"violation of Y {rel} p_i rho_i {r['yfeas']:.2e})", [r["yherm"], r["yfeas"]], 0.0))
@@ -109,7 +113,7 @@ def run_discrimination(inputs, probs, strategy, pd):
     args = _fresh(inputs)
     before = en.digest(args, probs)
     p = None if probs is None else list(probs)
-    res, exc = call(state_distinguishability, args, p, strategy, "cvxopt", pd)
+    res, exc = call(state_distinguishability, args, p, strategy, "cvxopt", pd, **en.solver_kwargs(strategy, pd))
     mutated = en.digest(args, probs) != before or (p is not None and p != list(probs))
     return res, exc, mutated
 
@@ -362,7 +366,7 @@ def isdist_check(case):
 
 
 CLAUSES = [
-    Clause("C10.min_error", min_error_cases, min_error_check, tol="ipm(1e-4)", chunk=6, weight=0.15, probe=4,
+    Clause("C10.min_error", min_error_cases, min_error_check, tol="ipm(1e-4); certificates 1e-3", chunk=6, weight=0.15, probe=4,
            doc="min-error value in certified bracket, Helstrom / orthogonal / max-prior / PGM, primal = dual, returned operators are a POVM "
                "attaining the value with Y = sum p_i rho_i M_i dual feasible; kets in 3 forms and mixed ensembles"),
     Clause("C10.unambiguous", unambiguous_cases, unambiguous_check, tol="ipm(1e-4)", chunk=6, weight=0.12, probe=4,
